@@ -3,6 +3,7 @@ package props
 import (
 	"context"
 	"fmt"
+	"math/rand"
 	"sync"
 	"sync/atomic"
 	"time"
@@ -95,178 +96,192 @@ func c09Pubsub(c *vf.Ctx) {
 		if !c.Mine(sub, i) {
 			continue
 		}
-		r := c.Rand(sub, i)
-		c.Cur(sub, i, "")
-		var hosts []host.Host
-		ok := true
-		for k := 0; k < 3; k++ {
-			h, err := newHost()
-			if err != nil {
-				c.Inconclusive(sub, i, "host-create", err.Error(), nil)
-				ok = false
+		// environment trouble (hosts cannot be created, the gossip mesh does not form) is retried with fresh hosts;
+		// only after three attempts is the case recorded as inconclusive
+		why := ""
+		for attempt := 0; attempt < 3; attempt++ {
+			if why = c09PubsubOne(c, sub, i, c.Rand(sub, i*10+attempt)); why == "" {
 				break
 			}
-			hosts = append(hosts, h)
+			c.Inc("pubsub_attempts_retried")
 		}
-		if !ok {
-			for _, h := range hosts {
-				h.Close()
-			}
-			continue
-		}
-		hA, hR, hB := hosts[0], hosts[1], hosts[2]
-		topicName := fmt.Sprintf("/verif/c09/%d/%d", c.Seed, i)
-		topics, cancelPS, err := meshTopics(hosts, topicName)
-		if err != nil {
-			c.Inconclusive(sub, i, "mesh", err.Error(), nil)
-			for _, h := range hosts {
-				h.Close()
-			}
-			continue
-		}
-		cleanup := func() {
-			cancelPS()
-			for _, h := range hosts {
-				h.Close()
-			}
-		}
-		var relayAllowCalls sync.Map // peer -> *atomic.Int64
-		relayAllow := func(p peer.ID) bool {
-			v, _ := relayAllowCalls.LoadOrStore(p, new(atomic.Int64))
-			v.(*atomic.Int64).Add(1)
-			return true
-		}
-		filterB := r.Intn(2) == 0
-		rcR, err1 := announce.NewReceiver(hR, topicName, announce.WithTopic(topics[1]), announce.WithResend(true), announce.WithAllowPeer(relayAllow))
-		rcB, err2 := announce.NewReceiver(hB, topicName, announce.WithTopic(topics[2]), announce.WithFilterIPs(filterB))
-		snd, err3 := p2psender.New(nil, "", p2psender.WithTopic(topics[0]))
-		if err1 != nil || err2 != nil || err3 != nil {
-			c.Inconclusive(sub, i, "receiver-create", fmt.Sprint(err1, err2, err3), nil)
-			cleanup()
-			continue
-		}
-		colR, colB := collect(rcR), collect(rcB)
-		pubAddr := multiaddr.StringCast("/ip4/8.8.4.4/tcp/3104/http")
-		privAddr := multiaddr.StringCast("/ip4/192.168.7.7/tcp/3104/http")
-
-		// warm-up until the mesh carries messages from A to both R and B
-		warm := false
-		for k := 0; k < 100 && !warm; k++ {
-			m := message.Message{Cid: c09Cid(700000 + 100*i + k)}
-			m.SetAddrs([]multiaddr.Multiaddr{pubAddr})
-			_ = snd.Send(context.Background(), m)
-			time.Sleep(100 * time.Millisecond)
-			if len(colR.snapshot()) > 0 && len(colB.snapshot()) > 0 {
-				warm = true
-			}
-		}
-		if !warm {
-			c.Inconclusive(sub, i, "mesh-not-formed", "no pubsub message reached both receivers within 10 s", nil)
-			rcR.Close()
-			rcB.Close()
-			cleanup()
-			continue
-		}
-		wit := func() any {
-			return map[string]any{"A_publisher_host": hA.ID().String(), "R_relay_host": hR.ID().String(), "B_receiver_host": hB.ID().String(), "filter_ips_on_B": filterB}
-		}
-		c.Guard(sub, i, wit, func() {
-			// (a) a pubsub announcement from A is attributed to A and carries its addresses
-			cid1 := c09Cid(710000 + i)
-			m := message.Message{Cid: cid1}
-			m.SetAddrs([]multiaddr.Multiaddr{pubAddr, privAddr})
-			if err := snd.Send(context.Background(), m); err != nil {
-				c.Fail(sub, i, "pubsub-send", err.Error(), wit())
-				return
-			}
-			a, got := waitFor(colB, 20*time.Second, func(a announce.Announce) bool { return a.Cid.Equals(cid1) })
-			if !got {
-				c.Fail(sub, i, "pubsub-announce-not-delivered", "B never saw A's announcement", wit())
-				return
-			}
-			if a.PeerID != hA.ID() {
-				c.Fail(sub, i, "pubsub-announce-misattributed", fmt.Sprintf("peer %s want %s", a.PeerID, hA.ID()), wit())
-			}
-			hasPriv := false
-			hasPub := false
-			for _, ad := range a.Addrs {
-				if ad.Equal(privAddr) {
-					hasPriv = true
-				}
-				if ad.Equal(pubAddr) {
-					hasPub = true
-				}
-			}
-			if !hasPub || hasPriv == filterB {
-				c.Fail(sub, i, "pubsub-address-filtering", fmt.Sprintf("addrs %v filter=%v", maStrings(a.Addrs), filterB), wit())
-			}
-			// (b) a direct announcement at the relay R for publisher P
-			P := EdIdent(r)
-			cid2 := c09Cid(720000 + i)
-			if err := rcR.Direct(context.Background(), cid2, peer.AddrInfo{ID: P.ID, Addrs: []multiaddr.Multiaddr{pubAddr, privAddr}}); err != nil {
-				c.Fail(sub, i, "direct-error", err.Error(), wit())
-				return
-			}
-			b, got := waitFor(colB, 20*time.Second, func(a announce.Announce) bool { return a.Cid.Equals(cid2) })
-			if !got {
-				c.Fail(sub, i, "republication-not-received", "B never saw the relay's republication", wit())
-				return
-			}
-			// address filtering applies to republished announcements as to any other
-			rPriv, rPub := false, false
-			for _, ad := range b.Addrs {
-				if ad.Equal(privAddr) {
-					rPriv = true
-				}
-				if ad.Equal(pubAddr) {
-					rPub = true
-				}
-			}
-			if !rPub || rPriv == filterB {
-				c.Fail(sub, i, "republished-announcement-address-filtering", fmt.Sprintf("addrs %v filter=%v", maStrings(b.Addrs), filterB), wit())
-			}
-			if b.PeerID != P.ID {
-				key := "republication-misattributed"
-				if b.PeerID == hR.ID() {
-					key = "republication-attributed-to-relay"
-				}
-				c.Fail(sub, i, key, fmt.Sprintf("peer %s want original publisher %s", b.PeerID, P.ID), wit())
-			}
-			// (c) marker from A orders the observation after the relay's loop-back
-			cid3 := c09Cid(730000 + i)
-			m3 := message.Message{Cid: cid3}
-			m3.SetAddrs([]multiaddr.Multiaddr{pubAddr})
-			_ = snd.Send(context.Background(), m3)
-			if _, got := waitFor(colR, 20*time.Second, func(a announce.Announce) bool { return a.Cid.Equals(cid3) }); !got {
-				c.Inconclusive(sub, i, "marker-not-seen", "", nil)
-				return
-			}
-			if nR := countOf(colR, func(a announce.Announce) bool { return a.Cid.Equals(cid2) }); nR != 1 {
-				c.Fail(sub, i, "relay-delivered-direct-announce-not-once", fmt.Sprint(nR), wit())
-			}
-			v, _ := relayAllowCalls.Load(P.ID)
-			calls := int64(0)
-			if v != nil {
-				calls = v.(*atomic.Int64).Load()
-			}
-			if calls != 1 {
-				c.Fail(sub, i, "relay-reacted-to-own-republication", fmt.Sprintf("the relay's allow filter was consulted %d times for the directly announced publisher (want 1)", calls), wit())
-			}
-			if nB := countOf(colB, func(a announce.Announce) bool { return a.Cid.Equals(cid2) }); nB != 1 {
-				c.Fail(sub, i, "republication-delivered-not-once", fmt.Sprint(nB), wit())
-			}
-			c.Inc("pubsub_runs_completed")
-		})
-		rcR.Close()
-		rcB.Close()
-		snd.Close()
-		cleanup()
-		c.Eval(3)
-		c.Distinct(sub, fmt.Sprint(filterB, i))
-		if c.WantSample(sub) {
-			c.Sample(sub, wit())
+		if why != "" {
+			c.Inconclusive(sub, i, "pubsub-environment", why, nil)
 		}
 	}
+}
+
+// c09PubsubOne runs one pubsub scenario; a non-empty return value names an environment problem (retry).
+func c09PubsubOne(c *vf.Ctx, sub string, i int, r *rand.Rand) string {
+	c.Cur(sub, i, "")
+	var hosts []host.Host
+	envErr := ""
+	ok := true
+	for k := 0; k < 3; k++ {
+		h, err := newHost()
+		if err != nil {
+			envErr = "host-create: " + err.Error()
+			ok = false
+			break
+		}
+		hosts = append(hosts, h)
+	}
+	if !ok {
+		for _, h := range hosts {
+			h.Close()
+		}
+		return envErr
+	}
+	hA, hR, hB := hosts[0], hosts[1], hosts[2]
+	topicName := fmt.Sprintf("/verif/c09/%d/%d", c.Seed, i)
+	topics, cancelPS, err := meshTopics(hosts, topicName)
+	if err != nil {
+		for _, h := range hosts {
+			h.Close()
+		}
+		return "mesh: " + err.Error()
+	}
+	cleanup := func() {
+		cancelPS()
+		for _, h := range hosts {
+			h.Close()
+		}
+	}
+	var relayAllowCalls sync.Map // peer -> *atomic.Int64
+	relayAllow := func(p peer.ID) bool {
+		v, _ := relayAllowCalls.LoadOrStore(p, new(atomic.Int64))
+		v.(*atomic.Int64).Add(1)
+		return true
+	}
+	filterB := r.Intn(2) == 0
+	rcR, err1 := announce.NewReceiver(hR, topicName, announce.WithTopic(topics[1]), announce.WithResend(true), announce.WithAllowPeer(relayAllow))
+	rcB, err2 := announce.NewReceiver(hB, topicName, announce.WithTopic(topics[2]), announce.WithFilterIPs(filterB))
+	snd, err3 := p2psender.New(nil, "", p2psender.WithTopic(topics[0]))
+	if err1 != nil || err2 != nil || err3 != nil {
+		cleanup()
+		return "receiver-create: " + fmt.Sprint(err1, err2, err3)
+	}
+	colR, colB := collect(rcR), collect(rcB)
+	pubAddr := multiaddr.StringCast("/ip4/8.8.4.4/tcp/3104/http")
+	privAddr := multiaddr.StringCast("/ip4/192.168.7.7/tcp/3104/http")
+
+	// warm-up until the mesh carries messages from A to both R and B
+	warm := false
+	for k := 0; k < 300 && !warm; k++ {
+		m := message.Message{Cid: c09Cid(700000 + 100*i + k)}
+		m.SetAddrs([]multiaddr.Multiaddr{pubAddr})
+		_ = snd.Send(context.Background(), m)
+		time.Sleep(100 * time.Millisecond)
+		if len(colR.snapshot()) > 0 && len(colB.snapshot()) > 0 {
+			warm = true
+		}
+	}
+	if !warm {
+		rcR.Close()
+		rcB.Close()
+		cleanup()
+		return "mesh-not-formed: no pubsub message reached both receivers within 30 s"
+	}
+	wit := func() any {
+		return map[string]any{"A_publisher_host": hA.ID().String(), "R_relay_host": hR.ID().String(), "B_receiver_host": hB.ID().String(), "filter_ips_on_B": filterB}
+	}
+	c.Guard(sub, i, wit, func() {
+		// (a) a pubsub announcement from A is attributed to A and carries its addresses
+		cid1 := c09Cid(710000 + i)
+		m := message.Message{Cid: cid1}
+		m.SetAddrs([]multiaddr.Multiaddr{pubAddr, privAddr})
+		if err := snd.Send(context.Background(), m); err != nil {
+			c.Fail(sub, i, "pubsub-send", err.Error(), wit())
+			return
+		}
+		a, got := waitFor(colB, 20*time.Second, func(a announce.Announce) bool { return a.Cid.Equals(cid1) })
+		if !got {
+			c.Fail(sub, i, "pubsub-announce-not-delivered", "B never saw A's announcement", wit())
+			return
+		}
+		if a.PeerID != hA.ID() {
+			c.Fail(sub, i, "pubsub-announce-misattributed", fmt.Sprintf("peer %s want %s", a.PeerID, hA.ID()), wit())
+		}
+		hasPriv := false
+		hasPub := false
+		for _, ad := range a.Addrs {
+			if ad.Equal(privAddr) {
+				hasPriv = true
+			}
+			if ad.Equal(pubAddr) {
+				hasPub = true
+			}
+		}
+		if !hasPub || hasPriv == filterB {
+			c.Fail(sub, i, "pubsub-address-filtering", fmt.Sprintf("addrs %v filter=%v", maStrings(a.Addrs), filterB), wit())
+		}
+		// (b) a direct announcement at the relay R for publisher P
+		P := EdIdent(r)
+		cid2 := c09Cid(720000 + i)
+		if err := rcR.Direct(context.Background(), cid2, peer.AddrInfo{ID: P.ID, Addrs: []multiaddr.Multiaddr{pubAddr, privAddr}}); err != nil {
+			c.Fail(sub, i, "direct-error", err.Error(), wit())
+			return
+		}
+		b, got := waitFor(colB, 20*time.Second, func(a announce.Announce) bool { return a.Cid.Equals(cid2) })
+		if !got {
+			c.Fail(sub, i, "republication-not-received", "B never saw the relay's republication", wit())
+			return
+		}
+		// address filtering applies to republished announcements as to any other
+		rPriv, rPub := false, false
+		for _, ad := range b.Addrs {
+			if ad.Equal(privAddr) {
+				rPriv = true
+			}
+			if ad.Equal(pubAddr) {
+				rPub = true
+			}
+		}
+		if !rPub || rPriv == filterB {
+			c.Fail(sub, i, "republished-announcement-address-filtering", fmt.Sprintf("addrs %v filter=%v", maStrings(b.Addrs), filterB), wit())
+		}
+		if b.PeerID != P.ID {
+			key := "republication-misattributed"
+			if b.PeerID == hR.ID() {
+				key = "republication-attributed-to-relay"
+			}
+			c.Fail(sub, i, key, fmt.Sprintf("peer %s want original publisher %s", b.PeerID, P.ID), wit())
+		}
+		// (c) marker from A orders the observation after the relay's loop-back
+		cid3 := c09Cid(730000 + i)
+		m3 := message.Message{Cid: cid3}
+		m3.SetAddrs([]multiaddr.Multiaddr{pubAddr})
+		_ = snd.Send(context.Background(), m3)
+		if _, got := waitFor(colR, 20*time.Second, func(a announce.Announce) bool { return a.Cid.Equals(cid3) }); !got {
+			c.Inconclusive(sub, i, "marker-not-seen", "", nil)
+			return
+		}
+		if nR := countOf(colR, func(a announce.Announce) bool { return a.Cid.Equals(cid2) }); nR != 1 {
+			c.Fail(sub, i, "relay-delivered-direct-announce-not-once", fmt.Sprint(nR), wit())
+		}
+		v, _ := relayAllowCalls.Load(P.ID)
+		calls := int64(0)
+		if v != nil {
+			calls = v.(*atomic.Int64).Load()
+		}
+		if calls != 1 {
+			c.Fail(sub, i, "relay-reacted-to-own-republication", fmt.Sprintf("the relay's allow filter was consulted %d times for the directly announced publisher (want 1)", calls), wit())
+		}
+		if nB := countOf(colB, func(a announce.Announce) bool { return a.Cid.Equals(cid2) }); nB != 1 {
+			c.Fail(sub, i, "republication-delivered-not-once", fmt.Sprint(nB), wit())
+		}
+		c.Inc("pubsub_runs_completed")
+	})
+	rcR.Close()
+	rcB.Close()
+	snd.Close()
+	cleanup()
+	c.Eval(3)
+	c.Distinct(sub, fmt.Sprint(filterB, i))
+	if c.WantSample(sub) {
+		c.Sample(sub, wit())
+	}
+	return ""
 }
 
 var _ = vf.Returned
